@@ -4,6 +4,7 @@
 use std::io::{Cursor, SeekFrom};
 
 use crate::ByteSpan;
+use crate::common_file_operations::read_counted_bytes;
 use crate::crc::XivCrc32;
 use binrw::{BinRead, binread};
 
@@ -66,7 +67,7 @@ pub struct Shader {
     /// The HLSL bytecode of this shader. The DX level used varies.
     #[br(seek_before = SeekFrom::Start(shader_data_offset as u64 + data_offset as u64 + if is_vertex { 8 } else { 0 } ))]
     // data_size covers the whole blob, including the additional data in front of the bytecode
-    #[br(count = if is_vertex { data_size.saturating_sub(8) } else { data_size })]
+    #[br(parse_with = read_counted_bytes, args(if is_vertex { data_size.saturating_sub(8) } else { data_size } as u64))]
     #[br(restore_position)]
     pub bytecode: Vec<u8>,
 }
